@@ -151,7 +151,7 @@ func scenarios(tier string) []vlib.Scenario {
 
 func config(sc vlib.Scenario, tier string) vsched.Config {
 	p := sc.P.(params)
-	cfg := vsched.Config{Preempt: 1, Switch: 1, SelCase: 1, Timer: -1, Horizon: 40 * time.Second, MaxSteps: 400000}
+	cfg := vsched.Config{Preempt: 1, Switch: 1, SelCase: 1, Stall: 1, Timer: -1, Horizon: 40 * time.Second, MaxSteps: 400000}
 	cfg.Budget[vsched.BudP] = p.P
 	cfg.Scope = func(site string) bool {
 		return strings.Contains(site, "iscp.(*Upstream)") || strings.Contains(site, "iscp.(*eventDispatcher)") || strings.Contains(site, "(DataPointGroups)")
@@ -188,6 +188,7 @@ type world struct {
 	acksSentAtClose []string
 	states    []stateRec
 	closedEv  int
+	dev       bool
 	phase     string
 	opCounter int
 }
@@ -441,6 +442,7 @@ func run(sc vlib.Scenario, cfg vsched.Config) (*vsched.Result, vlib.Verdict) {
 		v.Inconclusive = "connect/open failed: " + w.connErr.Error()
 		return res, v
 	}
+	w.dev = res.Used[vsched.BudP] > 0
 	switch propID {
 	case "C20":
 		w.oracleC20(&v)
@@ -576,54 +578,48 @@ func (w *world) oracleC01(v *vlib.Verdict) {
 			v.Fail("C01.sendhook", "phantom", "send hook announced seq %d (%d times) that never reached the broker", s, k)
 		}
 	}
-	// 7. ack hook, when the broker acknowledged every chunk before Close returned
-	sent := append([]string{}, w.acksSentAtClose...)
-	ackedAll := true
-	sentSeq := map[uint32]bool{}
-	for _, r := range u.AcksSent {
-		sentSeq[r.SequenceNumber] = true
-	}
-	for s := range seqSeen {
-		if !sentSeq[s] {
-			ackedAll = false
-		}
-	}
-	// the scripted broker acknowledges every chunk it receives (held acks are released as soon as the
-	// client is quiescent), so every chunk's result must have reached the hook when Close returns
+	// 7. ack hook. The scripted broker acknowledges every chunk it receives (held acks are released as
+	// soon as the client is quiescent, late ones after 1 s of virtual time), so when Close returns nil
+	// every chunk's result must have been reported; and the hook never reports a result more often than
+	// the broker sent it, nor one the broker did not send (a duplicate still in flight when Close
+	// returns need not be reported).
 	hookedSeq := map[uint32]bool{}
 	for _, r := range w.ackHook[:w.ackHookAtClose] {
 		hookedSeq[r.SequenceNumber] = true
 	}
+	hookedLater := map[uint32]bool{}
+	for _, r := range w.ackHook {
+		hookedLater[r.SequenceNumber] = true
+	}
 	var missing []uint32
+	late := true
 	for s := range seqSeen {
 		if !hookedSeq[s] {
 			missing = append(missing, s)
+			if !hookedLater[s] {
+				late = false
+			}
 		}
 	}
 	if len(missing) > 0 {
 		sort.Slice(missing, func(i, j int) bool { return missing[i] < missing[j] })
-		lastAcked := hookedSeq[n]
-		v.Fail("C01.ackhook", fmt.Sprintf("close-before-ack/last-acked=%v", lastAcked), "Close returned nil although the results of chunks %v had not been reported to the ack hook (broker acks every chunk; results sent by then: %v)", missing, w.acksSentAtClose)
-	} else if ackedAll {
-		var hooked []string
-		for _, r := range w.ackHook[:w.ackHookAtClose] {
-			hooked = append(hooked, fmt.Sprintf("%d:%d", r.SequenceNumber, r.ResultCode))
-		}
-		// exactly once per result: duplicates sent by the broker are distinct results
-		sort.Strings(sent)
-		sort.Strings(hooked)
-		if strings.Join(sent, "|") != strings.Join(hooked, "|") {
-			kind := "missing"
-			if len(hooked) > len(sent) {
-				kind = "extra"
+		v.Fail("C01.ackhook", fmt.Sprintf("missing-at-close/reported-later=%v/dev=%v", late, w.dev), "Close returned nil although the results of chunks %v had not been reported to the ack hook (broker acks every chunk; results sent by then: %v)", missing, w.acksSentAtClose)
+	}
+	sentCount := map[string]int{}
+	for _, r := range u.AcksSent {
+		sentCount[fmt.Sprintf("%d:%d", r.SequenceNumber, r.ResultCode)]++
+	}
+	hookCount := map[string]int{}
+	for _, r := range w.ackHook {
+		hookCount[fmt.Sprintf("%d:%d", r.SequenceNumber, r.ResultCode)]++
+	}
+	for k, n := range hookCount {
+		if n > sentCount[k] {
+			kind := "more-than-sent"
+			if sentCount[k] == 0 {
+				kind = "never-sent"
 			}
-			all := []string{}
-			for _, r := range w.ackHook {
-				all = append(all, fmt.Sprintf("%d:%d", r.SequenceNumber, r.ResultCode))
-			}
-			sort.Strings(all)
-			late := strings.Join(all, "|") == strings.Join(sent, "|")
-			v.Fail("C01.ackhook", fmt.Sprintf("%s/late=%v", kind, late), "ack hook calls when Close returned %v != results the broker had sent %v (all hook calls by the end: %v)", hooked, sent, all)
+			v.Fail("C01.ackhook", kind, "ack hook reported result %s %d times, the broker sent it %d times", k, n, sentCount[k])
 		}
 	}
 	v.Outcome = fmt.Sprintf("chunks=%s acks=%d", strings.Join(shape, "+"), len(u.AcksSent))
